@@ -1,6 +1,281 @@
 // Root of the verification hook module `hashbrown::raw::verif`.
-// Included by /repo/src/raw/mod.rs under `--cfg hashbrown_verif`.
+// Included by /repo/src/raw/mod.rs under `--cfg hashbrown_verif`; lives in /verif/hook.
+//
+// Layout:
+//   verif.rs   value sources (Kani / replay), contract macros, harness registry macro
+//   pure.rs    contracts of the pure arithmetic and bit-level functions (C17, C18, C20)
+//   state.rs   specification predicates (wf, reach, view) and symbolic table states
+//   rawh.rs    Hoare obligations {Inv && pre} f {Inv && post} for the raw table core
+//   apih.rs    obligations for the public HashMap / HashSet / HashTable wrappers
 extern crate std;
 use super::*;
+use std::string::String;
+use std::vec::Vec;
+
+pub type Chk = Result<(), &'static str>;
+
+/// Source of input values: `kani::any()` under Kani, recorded bytes under replay.
+pub trait Src {
+    fn bytes(&mut self, n: usize) -> u64;
+    /// Kani: `kani::assume(c)` and true.  Replay: returns c (caller returns Ok(()) when false).
+    fn assume(&mut self, c: bool) -> bool;
+    fn u8(&mut self) -> u8 {
+        self.bytes(1) as u8
+    }
+    fn u16(&mut self) -> u16 {
+        self.bytes(2) as u16
+    }
+    fn u32(&mut self) -> u32 {
+        self.bytes(4) as u32
+    }
+    fn u64(&mut self) -> u64 {
+        self.bytes(8)
+    }
+    fn usize(&mut self) -> usize {
+        self.bytes(8) as usize
+    }
+    fn bool(&mut self) -> bool {
+        self.bytes(1) & 1 == 1
+    }
+    /// true for the native sampling source: states are then generated constructively
+    fn native(&self) -> bool {
+        false
+    }
+    /// value in 0..n (n >= 1)
+    fn below(&mut self, n: usize) -> usize {
+        let v = self.u8() as usize;
+        if self.assume(v < n) {
+            v
+        } else {
+            0
+        }
+    }
+}
+
+#[cfg(kani)]
+pub struct K;
+#[cfg(kani)]
+impl Src for K {
+    fn bytes(&mut self, n: usize) -> u64 {
+        match n {
+            1 => kani::any::<u8>() as u64,
+            2 => kani::any::<u16>() as u64,
+            4 => kani::any::<u32>() as u64,
+            _ => kani::any::<u64>(),
+        }
+    }
+    fn assume(&mut self, c: bool) -> bool {
+        kani::assume(c);
+        true
+    }
+    fn bool(&mut self) -> bool {
+        kani::any::<bool>()
+    }
+}
+
+/// Replays the byte vectors printed by `kani --concrete-playback=print`, in draw order.
+pub struct Replay {
+    vals: Vec<Vec<u8>>,
+    pos: usize,
+    pub underrun: bool,
+    pub assume_failed: bool,
+}
+impl Replay {
+    pub fn new(vals: Vec<Vec<u8>>) -> Self {
+        Replay { vals, pos: 0, underrun: false, assume_failed: false }
+    }
+}
+impl Src for Replay {
+    fn bytes(&mut self, n: usize) -> u64 {
+        let mut r = 0u64;
+        if self.pos < self.vals.len() {
+            let v = &self.vals[self.pos];
+            let mut i = 0;
+            while i < v.len() && i < 8 {
+                r |= (v[i] as u64) << (8 * i);
+                i += 1;
+            }
+        } else {
+            self.underrun = true;
+        }
+        self.pos += 1;
+        let _ = n;
+        r
+    }
+    fn assume(&mut self, c: bool) -> bool {
+        if !c {
+            self.assume_failed = true;
+        }
+        c
+    }
+}
+
+/// Native sampling source (engine R: runtime evaluation of the same contracts on sampled
+/// states; a bounded stand-in, never counted as proved).  xorshift64*, seeded.
+pub struct Rand {
+    x: u64,
+    pool: [u64; 4],
+    pub assume_failed: bool,
+}
+impl Rand {
+    pub fn new(seed: u64) -> Self {
+        let mut r = Rand { x: seed | 1, pool: [0; 4], assume_failed: false };
+        let mut i = 0;
+        while i < 4 {
+            r.pool[i] = r.raw();
+            i += 1;
+        }
+        r
+    }
+    #[inline]
+    pub fn raw(&mut self) -> u64 {
+        self.x ^= self.x >> 12;
+        self.x ^= self.x << 25;
+        self.x ^= self.x >> 27;
+        self.x.wrapping_mul(0x2545_F491_4F6C_DD1D)
+    }
+}
+impl Src for Rand {
+    fn bytes(&mut self, n: usize) -> u64 {
+        let r = self.raw();
+        if n >= 8 {
+            // structured 64-bit values: equal values, equal hashes with different values,
+            // equal tags / equal positions only, or fully random
+            match (r >> 60) & 7 {
+                0 | 1 => self.pool[(r & 3) as usize],
+                2 => self.pool[(r & 3) as usize] ^ ((r >> 8) & 0xFF00),          // same hash, other value
+                3 => (self.pool[(r & 3) as usize] & !0xFF) | ((r >> 8) & 0xFF),  // same tag, other position
+                4 => (self.pool[(r & 3) as usize] & 0xFF) | (r & !0xFF),         // same position, other tag
+                _ => r,
+            }
+        } else {
+            r >> 8 & ((1u64 << (8 * n)) - 1)
+        }
+    }
+    fn assume(&mut self, c: bool) -> bool {
+        if !c {
+            self.assume_failed = true;
+        }
+        c
+    }
+    fn native(&self) -> bool {
+        true
+    }
+    fn below(&mut self, n: usize) -> usize {
+        (self.raw() >> 16) as usize % n
+    }
+}
+
+/// A contract clause: checked as its own CBMC property (named by the message) and
+/// reported as `Err(message)` by the native replay.
+macro_rules! ensure {
+    ($c:expr, $m:literal) => {
+        if !($c) {
+            #[cfg(kani)]
+            kani::assert(false, $m);
+            return Err($m);
+        }
+    };
+}
+/// Precondition / state hypothesis.
+macro_rules! req {
+    ($s:expr, $c:expr) => {
+        if !$s.assume($c) {
+            return Ok(());
+        }
+    };
+}
+/// Vacuity guard: this point/condition must be reachable (reported as a cover property).
+macro_rules! reach {
+    ($c:expr, $m:literal) => {
+        #[cfg(kani)]
+        kani::cover!($c, $m);
+    };
+}
+/// Propagate a nested check.
+macro_rules! sub {
+    ($e:expr) => {
+        if let Err(m) = $e {
+            return Err(m);
+        }
+    };
+}
+
+/// `for i in 0..n` (n <= 64) written as three nested loops of constant trip count 4, so that
+/// specification-side loops are fully unrolled by the verifier whatever the harness's unwind
+/// bound is; the unwind bound then speaks about the loops of the code under test only.
+macro_rules! for_upto {
+    ($i:ident, $n:expr, $body:block) => {{
+        let n_: usize = $n;
+        let mut a_ = 0usize;
+        while a_ * 16 < n_ {
+            let mut b_ = 0usize;
+            while b_ < 4 && a_ * 16 + b_ * 4 < n_ {
+                let mut c_ = 0usize;
+                while c_ < 4 && a_ * 16 + b_ * 4 + c_ < n_ {
+                    let $i: usize = a_ * 16 + b_ * 4 + c_;
+                    $body
+                    c_ += 1;
+                }
+                b_ += 1;
+            }
+            a_ += 1;
+        }
+    }};
+}
 
 include!(concat!(env!("HASHBROWN_VERIF_DIR"), "/pure.rs"));
+include!(concat!(env!("HASHBROWN_VERIF_DIR"), "/state.rs"));
+include!(concat!(env!("HASHBROWN_VERIF_DIR"), "/rawh.rs"));
+
+/// Declares obligations: each `h_*<S: Src>(&mut S) -> Chk` becomes a Kani proof harness
+/// `raw::verif::k::h_*` and an entry of the native replay dispatcher.
+macro_rules! harnesses {
+    ($( $(#[$m:meta])* $name:ident ),* $(,)?) => {
+        #[cfg(kani)]
+        mod k {
+            $(
+                #[kani::proof]
+                $(#[$m])*
+                fn $name() {
+                    let mut s = super::K;
+                    let r = super::$name(&mut s);
+                    assert!(r.is_ok());
+                }
+            )*
+        }
+        /// Native replay of a counterexample: `None` = unknown obligation.
+        pub fn replay(name: &str, vals: Vec<Vec<u8>>) -> Option<(Chk, bool, bool)> {
+            let mut s = Replay::new(vals);
+            let r = match name {
+                $( stringify!($name) => $name(&mut s), )*
+                _ => return None,
+            };
+            Some((r, s.assume_failed, s.underrun))
+        }
+        /// Engine R: evaluate obligation `name` on `iters` sampled inputs; returns
+        /// (evaluated, discarded-by-precondition, first failure (iteration, seed, message)).
+        pub fn sample(name: &str, seed: u64, iters: u64) -> Option<(u64, u64, Option<(u64, u64, &'static str)>)> {
+            let mut done = 0u64;
+            let mut skipped = 0u64;
+            let mut it = 0u64;
+            while it < iters {
+                let sd = seed.wrapping_mul(0x9E37_79B9_7F4A_7C15).wrapping_add(it.wrapping_mul(0xD1B5_4A32_D192_ED03)) | 1;
+                let mut s = Rand::new(sd);
+                let r = match name {
+                    $( stringify!($name) => $name(&mut s), )*
+                    _ => return None,
+                };
+                if s.assume_failed { skipped += 1; } else { done += 1; }
+                if let Err(m) = r {
+                    return Some((done, skipped, Some((it, sd, m))));
+                }
+                it += 1;
+            }
+            Some((done, skipped, None))
+        }
+        pub const HARNESSES: &[&str] = &[ $( stringify!($name), )* ];
+    };
+}
+
+include!(concat!(env!("HASHBROWN_VERIF_DIR"), "/harness_list.rs"));
